@@ -177,11 +177,12 @@ def h4(params, zero):
 def h5(params, zero):
     """concurrent evaluations, each with its own context-local data"""
     n = params["n"]
-    expr = ["Muss [1] U [2] U [501]", "Muss [1] U ([2] O [3]) U [501] Soll [2][901]"][params.get("expr", 0)]
+    expr = ["Muss [1] U [2] U [501]", "Muss [1] U ([2] O [3]) U [501] Soll [2][901]", "Muss [501][901] U [902] Kann [1][901]"][params.get("expr", 0)]
     datas = []
     for i in range(n):
         rcv = dict(zip(("1", "2", "3"), PERMS[(params["perm"] + 2 * i) % 6]))
-        datas.append({"rc": rcv, "fc": {"901": (i % 2 == 0, None if i % 2 == 0 else f"msg {i}")}, "hints": {"501": f"Hinweis von {i}"}})
+        datas.append({"rc": rcv, "fc": {"901": (i % 2 == 0, None if i % 2 == 0 else f"msg {i}"), "902": (i % 2 == 1, None if i % 2 == 1 else f"m902 {i}")},
+                      "hints": {"501": f"Hinweis von {i}"}})
 
     def factory(sched):
         async def one(i):
@@ -345,6 +346,9 @@ def plan(tier, seed):
         add("H5", {"n": 2, "perm": perm, "expr": 0})
     add("H5", {"n": 3, "perm": 0, "expr": 0}, order_bound=b["large_order_bound"])
     add("H5", {"n": 2, "perm": 1, "expr": 1}, order_bound=b["large_order_bound"])
+    for perm in (0, 3):
+        add("H5", {"n": 2, "perm": perm, "expr": 2}, order_bound=b["large_order_bound"] + 1)
+    add("H5", {"n": 3, "perm": 0, "expr": 2}, order_bound=b["large_order_bound"])
     for e in range(3 if tier == "quick" else 4):
         add("H6", {"expr": e}, order_bound=None if e in (0, 1) else (b["large_order_bound"] if e == 2 else 1))
     for kinds in itertools.product(("sync", "imm", "y1", "y2"), repeat=3):
